@@ -147,6 +147,19 @@ PROPS = {
         "partial": ["status state machine, transitions, bundle/revert construction: differential only (no theorem)", "account and code cache fills (insert-if-absent without a clearing counterpart) are not modelled"],
         "explanation": "Theorems cache_coherent / cache_entry_current (for any number of readers, any history of destroy / create / update commits and any interleaving, whenever no commit is in progress the cache serves exactly what revm's State serves; nothing a reader left behind is stale) and f1_original_order_violates (the original order of finding F1 is refuted in the model). Findings F1 and F6 repaired (known_findings.json).",
     },
+    "C11": {
+        "lean_modules": ["Props.C11"],
+        "harness": [
+            e2e("precompile,mixed", 160, 5000, configs="w2,w3,seq,fallback", schedules=3, label="precompiles"),
+            {"sub": "facade-conf", "quick": {"cases": 60}, "thorough": {"cases": 3000}, "timeout": 3000},
+        ],
+        "rule": "precompile family: eight custom precompiles registered through DynParallelPrecompile (read-your-writes storage update, balance bookkeeping via balance / set_balance, a writer that ignores the refusal in a static context, a halting one that writes first, a beneficiary-balance reader, a writer, a state-dependent fatal one, a balance probe of a still-cold account followed by the BALANCE opcode on the same account) called directly, nested from contracts, through STATICCALL, inside a reverting frame, mixed with transfers to the accounts they touch, a mid-block invalid transaction (sequential suffix replay) — parallel (free and controller schedules), sequential and fallback_sequential() entry; oracle = in-order stock revm with the same adapters installed (outcomes, gas, bundle, per-commit state); facade-conf: every precompile invocation logs (static?, facade calls, kind of each result); all logged invocations are replayed through Facade.runOps: the result kinds must equal the model's (static refusal at the first mutation, the same halt for every later call); " + E2E_RULE,
+        "trusted_base": E2E_TRUST,
+        "modelled": ["ParallelPrecompileState::{balance, sload, set_balance, sstore, ensure_healthy, ensure_mutable, record_fault, take_fault} and the fault enforcement of DynParallelPrecompile::to_alloy (src/precompile.rs) as Model/Facade.lean", "the journal is a pair of maps plus the set of loaded accounts; warm/cold metadata, gas and EvmInternals are not modelled"],
+        "assumptions": ["facade accesses are ordinary journal accesses (load_account / sload / sstore of EvmInternals), so conflict detection, frame reverts and the absence of residue are those of C01/C02; exercised by the e2e family incl. the cold-account balance probe", "the test precompiles use the facade only (the type system forbids anything else: fields are private)"],
+        "partial": ["that a facade access is recorded in the read/write sets and validated is NOT a Lean theorem of this model (it is the statement that journal accesses reach IncarnationDb): decided end to end", "both execution paths registering the same list is exercised (seq / fallback configurations), not proved"],
+        "explanation": "Theorems fault_sticky, static_refuses_before_change, static_mutation_faults, fault_survives, fault_enforced, static_write_is_halt, reads_go_through_journal, read_your_write over all call sequences (an implementation is any list of facade calls that may ignore every error).",
+    },
     "C12": {
         "lean_modules": ["Props.C12"],
         "harness": [e2e("delegated,code,lifecycle", 240, 6000, configs="w2,w3,seq", label="create-guard")],
